@@ -606,6 +606,11 @@ class Describer:
         d["conv"] = subst(next(iter(vals)), X, HOLE)
         d["raises"] = sorted({l[2] for l in leaves if l[1] == "raise"})
         d["guards"] = [[(subst(c, X, HOLE), pol) for c, pol in l[0]] for l in rets]
+        # one byte tested for "not zero" is exactly struct's "?" (every non-zero byte is true), whatever the integer format it was read with
+        if prefix.get("k") == "fixed" and prefix.get("fmt") in (">B", ">b", "<B", "<b", "B", "b", "!B", "!b") and \
+                d["conv"] in (("not", ("eq", HOLE, ("k", 0))), ("ne", HOLE, ("k", 0)), ("nonzero", HOLE), ("not", ("eq", ("k", 0), HOLE)), ("ne", ("k", 0), HOLE)):
+            d["prefix"] = {"k": "fixed", "fmt": ">?"}
+            d["conv"] = HOLE
         return d
 
     def match_marked(self, prefix, X, n):
@@ -741,6 +746,12 @@ class Describer:
             if isinstance(inner_t, ClassV) and (inner_t.entity is not None or "dataclass" in inner_t.flags):
                 if d.get("k") == "nothing":
                     d = {"k": "entity", "null": d.get("null"), "fields": [], "tagged_paths": [], "raises": [], "flexible": False}
+                if d.get("k") == "constant" and d.get("null") is None:
+                    # an entity without fields whose tagged section came out as constant bytes (count 0 and an empty flush)
+                    cb = bytes.fromhex(d["bytes"])
+                    tp = {"emitted": [], "count_bytes": cb.hex(), "count": cb[0] if len(cb) == 1 and cb[0] < 0x80 else None, "staged_flush": True,
+                          "problems": [] if cb == b"\x00" else [f"a class without fields writes the constant {cb.hex()}"], "elided": [], "order": []}
+                    d = {"k": "entity", "null": None, "fields": [], "tagged_paths": [tp], "raises": [], "flexible": True}
                 if d.get("k") == "entity":
                     d["class"] = inner_t.ref
         except Limit as e:
@@ -1100,11 +1111,21 @@ class Describer:
                 p0_writes.append(ev)
             else:
                 info["problems"].append(f"unexpected event {ev!r} in tagged section")
-        # the staging buffer is the one that received framed writes
+        # the staging buffer is the one that received framed writes; the other spelling stages every field in a buffer of its own and
+        # hands the sink the concatenation of their contents (b"".join([...])) -- then the frames are read in concatenation order
         stages = list(frames)
-        if len(stages) > 1:
+        joined = None
+        if len(p0_writes) == 2 and p0_writes[1][0] == "write" and isinstance(p0_writes[1][2], tuple) and p0_writes[1][2][:2] == ("join", ("k", b"")):
+            joined = list(p0_writes[1][2][2])
+            if all(isinstance(x, tuple) and x[:1] == ("contents",) for x in joined) and sorted(str(x[1]) for x in joined) == sorted(str(x) for x in stages) \
+                    and len(set(str(x[1]) for x in joined)) == len(joined):
+                stages = [x[1] for x in joined]
+            else:
+                info["problems"].append(f"the bytes handed to the sink are joined from {joined!r}, not from the contents of the staging buffers")
+                joined = None
+        if len(stages) > 1 and joined is None:
             info["problems"].append("several staging buffers")
-        fr = frames[stages[0]] if stages else []
+        fr = [ev_ for st_ in (stages if joined is not None else stages[:1]) for ev_ in frames.get(st_, [])]
         j = 0
         while j + 3 <= len(fr):
             tag_ev, size_ev, data_ev = fr[j], fr[j + 1], fr[j + 2]
@@ -1140,6 +1161,10 @@ class Describer:
                 info["problems"].append(f"tag count written as {c!r}")
             if flush[0] == "write" and flush[2][0] == "contents" and (not stages or flush[2][1] == stages[0] or not fr):
                 info["staged_flush"] = True
+            elif joined is not None:
+                info["staged_flush"] = True  # every staging buffer's contents, once each, in frame order (checked above)
+            elif flush[0] == "write" and flush[2] == ("k", b"") and not fr:
+                info["staged_flush"] = True  # nothing was staged: the empty flush is what an empty staging buffer gives
             else:
                 info["problems"].append(f"staged bytes flushed as {flush!r}")
         else:
